@@ -76,7 +76,7 @@ func (a *ctxAnalysis) replayEdgeGen(b *ssa.BasicBlock, si int) world.Facts {
 	if iff == nil {
 		return 0
 	}
-	c := iff.Cond
+	c := world.CondValue(iff)
 	neg := false
 	if u, ok := c.(*ssa.UnOp); ok && u.Op.String() == "!" {
 		c, neg = u.X, true
@@ -195,7 +195,7 @@ func (a *ctxAnalysis) keysOf(v ssa.Value, depth int) keyset {
 		}
 		return keyset{}
 	case *ssa.Field:
-		if st, ok := x.X.Type().Underlying().(*types.Struct); ok && st.Field(x.Field).Name() == "Context" && world.TypeIs(x.X.Type(), "/internal", "HandlerFuncParams") {
+		if st, ok := x.X.Type().Underlying().(*types.Struct); ok && world.CanonField(st.Field(x.Field)) == "Context" && world.TypeIs(x.X.Type(), "/internal", "HandlerFuncParams") {
 			return a.fieldCtx
 		}
 	}
@@ -635,7 +635,7 @@ func ruleN3(w *world.World, r *report.RuleResult) {
 			if iff == nil {
 				return 0
 			}
-			c := iff.Cond
+			c := world.CondValue(iff)
 			neg := false
 			if u, ok := c.(*ssa.UnOp); ok && u.Op.String() == "!" {
 				c, neg = u.X, true
